@@ -34,6 +34,9 @@ type c17Req struct {
 	idx       int
 	body      string // "" none, "replay" (known length, GetBody available), "once" (plain io.Reader of undeclared length), and the C17 shapes "trl-set", "trl-unset", "trl-empty", "stalled" (see request)
 	stall     *c17StallBody // body == "stalled"
+	slow      *c17SlowCloseBody // body == "slowclose" / "big-slowclose": Close blocks until the harness releases it
+	big       bool              // the request carries a c17BigHeaderLen-byte header field (larger than c17HeaderListLimit)
+	late      *c17LateBody  // body == "late"
 	cancel    context.CancelFunc
 	done      chan struct{}
 	resp      *http.Response
@@ -218,6 +221,105 @@ func (b *c17StallBody) stalled() bool {
 	return !b.released && !b.isClosed
 }
 
+// c17LateBody is a body of undeclared length whose data is not available yet:
+// Read blocks until the harness says the data is there (release), then delivers
+// "abc" and EOF. Closing it (the Transport does when the request is aborted)
+// unblocks a pending Read.
+type c17LateBody struct {
+	r        *strings.Reader
+	ready    chan struct{}
+	closed   chan struct{}
+	mu       sync.Mutex
+	released bool
+	isClosed bool
+}
+
+func (b *c17LateBody) Read(p []byte) (int, error) {
+	select {
+	case <-b.closed:
+		return 0, io.ErrClosedPipe
+	default:
+	}
+	select {
+	case <-b.ready:
+		return b.r.Read(p)
+	case <-b.closed:
+		return 0, io.ErrClosedPipe
+	}
+}
+
+func (b *c17LateBody) Close() error {
+	b.mu.Lock()
+	defer b.mu.Unlock()
+	if !b.isClosed {
+		b.isClosed = true
+		close(b.closed)
+	}
+	return nil
+}
+
+// release makes the body's data available. It reports false if the data had
+// been released before or the body has been closed.
+func (b *c17LateBody) release() bool {
+	b.mu.Lock()
+	defer b.mu.Unlock()
+	if b.released || b.isClosed {
+		return false
+	}
+	b.released = true
+	close(b.ready)
+	return true
+}
+
+// c17SlowCloseBody is a 3-byte body of undeclared length whose Close does not
+// return before the harness releases it (a slow Request.Body.Close is a
+// legitimate answer of the application: a body backed by a file on a slow
+// disk, a pipe whose other end has to be told). The Transport closes the body
+// in the clean-up of the request, so the clean-up is parked there until release.
+type c17SlowCloseBody struct {
+	r        *strings.Reader
+	rel      chan struct{}
+	mu       sync.Mutex
+	closing  bool // Close has been called
+	released bool
+}
+
+func (b *c17SlowCloseBody) Read(p []byte) (int, error) { return b.r.Read(p) }
+
+func (b *c17SlowCloseBody) Close() error {
+	b.mu.Lock()
+	b.closing = true
+	b.mu.Unlock()
+	<-b.rel
+	return nil
+}
+
+// pending: Close has been called and has not been allowed to return yet.
+func (b *c17SlowCloseBody) pending() bool {
+	b.mu.Lock()
+	defer b.mu.Unlock()
+	return b.closing && !b.released
+}
+
+// release lets Close return (now, or at once when it is called later).
+func (b *c17SlowCloseBody) release() {
+	b.mu.Lock()
+	defer b.mu.Unlock()
+	if !b.released {
+		b.released = true
+		close(b.rel)
+	}
+}
+
+// c17HeaderListLimit is the SETTINGS_MAX_HEADER_LIST_SIZE the harness' server
+// announces where a case asks for it; c17BigHeaderLen is the length of the
+// header field value that makes a request's header list larger than that
+// (every other request's header list is far below it).
+const (
+	c17HeaderListLimit = 4096
+	c17BigHeaderLen    = 5000
+)
+
 // request starts RoundTrip number len(reqs) in its own goroutine. body selects
 // the shape of the request:
 //
@@ -228,6 +330,10 @@ func (b *c17StallBody) stalled() bool {
 //	"trl-unset"  as "once", Request.Trailer announces X-T with a nil value that is never filled in (nothing to send as trailers)
 //	"trl-empty"  as "once", Request.Trailer is a non-nil empty map
 //	"stalled"    as "once", but after its 3 bytes the body does not reach EOF before releaseBody (the request half of the stream stays open)
+//	"slowclose"  as "once", but the body's Close blocks until the harness releases it
+//	"big"        GET with a header field of c17BigHeaderLen bytes: fails locally, after its stream id was assigned and before anything is written, once the peer has announced MAX_HEADER_LIST_SIZE c17HeaderListLimit
+//	"big-slowclose"  "big" + "slowclose" (POST)
+//	"late"       as "once", but the body's 3 bytes are not available before late.release (the request HEADERS go out, the DATA follows later)
 func (h *c17cli) request(body string) *c17Req {
 	ctx, cancel := context.WithCancel(context.Background())
 	r := &c17Req{idx: len(h.reqs), body: body, cancel: cancel, done: make(chan struct{})}
@@ -258,6 +364,17 @@ func (h *c17cli) request(body string) *c17Req {
 		r.stall = &c17StallBody{r: strings.NewReader("abc"), eof: make(chan struct{}), closed: make(chan struct{})}
 		rd = r.stall
 		method = "POST"
+	case "big":
+		r.big = true
+	case "slowclose", "big-slowclose":
+		r.slow = &c17SlowCloseBody{r: strings.NewReader("abc"), rel: make(chan struct{})}
+		rd = r.slow
+		method = "POST"
+		r.big = body == "big-slowclose"
+	case "late":
+		r.late = &c17LateBody{r: strings.NewReader("abc"), ready: make(chan struct{}), closed: make(chan struct{})}
+		rd = r.late
+		method = "POST"
 	default:
 		panic("c17cli.request: unknown body kind " + body)
 	}
@@ -266,6 +383,9 @@ func (h *c17cli) request(body string) *c17Req {
 		panic(err)
 	}
 	req.Header.Set("x-req", strconv.Itoa(r.idx))
+	if r.big {
+		req.Header.Set("x-big", strings.Repeat("v", c17BigHeaderLen))
+	}
 	if trailer != nil {
 		req.Trailer = trailer
 	}
@@ -515,6 +635,12 @@ func (h *c17cli) finish() {
 		if r.stall != nil {
 			r.stall.Close() // a body that never ends would keep its request goroutine in the bubble for ever
 		}
+		if r.slow != nil {
+			r.slow.release() // the same for a clean-up parked in Close
+		}
+		if r.late != nil {
+			r.late.Close()
+		}
 	}
 	synctest.Wait()
 	for _, c := range h.connList() {
@@ -562,6 +688,8 @@ func (h *c17cli) history() string {
 	}
 	for _, r := range h.reqs {
 		switch {
+		case !r.finished() && r.slow != nil && r.slow.pending():
+			fmt.Fprintf(&b, " req%d=pending(body.Close has not returned)", r.idx)
 		case !r.finished():
 			fmt.Fprintf(&b, " req%d=pending", r.idx)
 		case r.err != nil:
